@@ -28,25 +28,40 @@ impl PatchTrait for PatchArm {
         let patch_size = 12;
         let original_bytes = unsafe { read_bytes(src_ptr as *mut u8, patch_size) };
 
+        // Both sequences use r12 (ip) as their only scratch register: it is the intra-procedure-call
+        // scratch register of the AAPCS, the one core register a veneer between caller and callee may
+        // clobber. (r7 and r9 are callee-saved: the caller may keep live values in them.)
+        let target_addr = target.as_ptr() as u32;
         let instructions: [u32; 3] = if is_src_thumb {
-            [
-                // ldr r7, [pc, #0] ; 0x4F00. It will load pc + 0 into r6, so the target word
-                // bx r7 ; 4738
-                // Reversed because of little endian
-                0x47384F00,
-                // .word target
-                target.as_ptr() as u32,
-                // .word anything (unused)
-                0x00000000,
-            ]
+            // ldr.w r12, [pc, #4] ; F8DF C004, halfwords stored little endian
+            const LDR_W_R12_PC_4: u32 = 0xC004F8DF;
+            // bx r12 ; 4760
+            const BX_R12: u32 = 0x4760;
+            // nop (mov r8, r8) ; 46C0, never executed, only pads the patch to 12 bytes
+            const NOP: u32 = 0x46C0;
+
+            // A literal load reads from Align(PC, 4) + imm with PC = address of the instruction + 4,
+            // so `#4` names the first word-aligned slot after `bx r12` for either alignment of the
+            // entry: +8 when the entry is word-aligned, +6 when it is only halfword-aligned.
+            if src_ptr as usize % 4 == 0 {
+                // +0 ldr.w r12, [pc, #4] ; +4 bx r12 ; +6 nop ; +8 .word target
+                [LDR_W_R12_PC_4, (NOP << 16) | BX_R12, target_addr]
+            } else {
+                // +0 ldr.w r12, [pc, #4] ; +4 bx r12 ; +6 .word target ; +10 nop
+                [
+                    LDR_W_R12_PC_4,
+                    (target_addr << 16) | BX_R12,
+                    (NOP << 16) | (target_addr >> 16),
+                ]
+            }
         } else {
             [
-                // ldr r9, [pc, #-0] ; Load pc + 8 into r9, so the target word
-                0xE51F9000,
-                // bx r9 ; Branch to the target function
-                0xE12FFF19,
+                // ldr r12, [pc, #-0] ; Load pc + 8 into r12, so the target word
+                0xE51FC000,
+                // bx r12 ; Branch to the target function
+                0xE12FFF1C,
                 // .word target
-                target.as_ptr() as u32,
+                target_addr,
             ]
         };
 
@@ -55,14 +70,6 @@ impl PatchTrait for PatchArm {
         patch[0..4].copy_from_slice(&instructions[0].to_le_bytes());
         patch[4..8].copy_from_slice(&instructions[1].to_le_bytes());
         patch[8..12].copy_from_slice(&instructions[2].to_le_bytes());
-
-        // In thumb mode, if the source is not aligned on 32 bit, add a NOP to align it, so the target adress is also aligned on 32 bit
-        // If we don't do that, the load adress will be misaligned and will load the bx instruction instead of the target function.
-        if is_src_thumb && (src_ptr as usize % 4 != 0) {
-            patch.rotate_right(2);
-            patch[0] = 0xC0;
-            patch[1] = 0x46; // NOP instruction in Thumb mode
-        }
 
         unsafe {
             patch_function(src_ptr as *mut u8, &patch);
